@@ -108,6 +108,13 @@ def random_fate(rng, ids, depth, siblings=()):
             steps.append({'op': 'raise', 'kind': rng.choice(ALL_KINDS), 'tag': ids('e'),
                           'id': ids('s')})
         return steps
+    if roll < 0.29 and depth < 2:
+        # runs long; when the block closes it, its clean-up hands a successor to the block - too
+        # late: the block refuses it (a successor that was accepted would fail unnoticed)
+        return [{'op': 'guard', 'id': ids('s'),
+                 'body': fate_steps(rng.choice([('forever',), ('ok', 2), ('ok', 1.5)]), ids),
+                 'child': {'name': ids('t'), 'volatile': False,
+                           'steps': fate_steps(('fail', 0.5, rng.choice(KINDS)), ids)}}]
     if roll < 0.32:
         # runs long and fails in its clean-up when the block closes it
         return [{'op': 'fragile', 'kind': rng.choice(ALL_KINDS), 'tag': ids('e'), 'id': ids('s'),
